@@ -111,6 +111,40 @@ def oracle(case: dict):
             return None
         finally:
             shutil.rmtree(tmp, ignore_errors=True)
+    if kind == "multi-include":
+        # one dict includes several others, each obtained through the public load() (which resets the placeholder
+        # counter) or read(); dump; every directive must be in the file and lead to its target
+        tmp = native.scratch_dir("c18m_")
+        try:
+            a = tmp / case["a"]
+            a.parent.mkdir(parents=True, exist_ok=True)
+            a.write_text("own  1;\n")
+            try:
+                da = dictIO.SDict()
+                da.load(a) if case["how"][0] == "load" else da.update(dictIO.DictReader.read(a))
+                da = dictIO.DictReader.read(a) if case["how"][0] != "load" else da
+                for j, b in enumerate(case["bs"]):
+                    pb = tmp / b
+                    pb.parent.mkdir(parents=True, exist_ok=True)
+                    pb.write_text(f"from{j}  {j};\n")
+                    if case["how"][1 + j] == "load":
+                        db = dictIO.SDict()
+                        db.load(pb)
+                    else:
+                        db = dictIO.DictReader.read(pb)
+                    da.include(db)
+                da.dump(a)
+                txt = a.read_text()
+                back = gen.plain(dict(dictIO.DictReader.read(a)))
+            except Exception as e:  # noqa: BLE001
+                return ("include-raises", f"load/include/dump/read raised {type(e).__name__}: {e}")
+            missing = [b for j, b in enumerate(case["bs"]) if back.get(f"from{j}") != j]
+            if missing or back.get("own") != 1:
+                inc_lines = [l for l in txt.splitlines() if "#include" in l]
+                return ("include-lost", f"a={case['a']} includes {case['bs']} ({case['how']}): content of {missing} is not merged on read; directives written: {inc_lines}")
+            return None
+        finally:
+            shutil.rmtree(tmp, ignore_errors=True)
     raise ValueError(kind)
 
 
@@ -194,6 +228,19 @@ def run(ctx):
         finally:
             shutil.rmtree(tmp, ignore_errors=True)
     # include placements
+    for i in range(ctx.n(40, 600)):
+        names = rng.sample(sorted(PLACEMENTS), rng.randrange(2, 5))
+        a = PLACEMENTS[names[0]][0]
+        bs = []
+        for j, nm in enumerate(names):
+            b = PLACEMENTS[nm][1]
+            bs.append(os.path.join(os.path.dirname(b), f"inc{j}_" + os.path.basename(b)))
+        how = [rng.choice(["load", "read"]) for _ in range(1 + len(bs))]
+        c = {"kind": "multi-include", "a": a, "bs": bs, "how": how}
+        r = oracle(c)
+        if r:
+            ctx.oracle_fail(c, r[0], r[1])
+        ctx.count(("mi", a, tuple(bs), tuple(how)), True, "multi-include")
     for name, (a, b) in PLACEMENTS.items():
         c = {"kind": "include", "a": a, "b": b}
         r = oracle(c)
